@@ -25,17 +25,20 @@ def base_program():
                   mkfunc("h", kind="plain", reads=["GL", "HV"], rich=False),
                   # reference cycles: r refers to itself, p and q to each other (only versions are asked, nothing is called)
                   mkfunc("r", calls=[call("r")], rich=False),
-                  mkfunc("p", calls=[call("q")], rich=False), mkfunc("q", calls=[call("p")], rich=False)],
+                  mkfunc("p", calls=[call("q")], rich=False), mkfunc("q", calls=[call("p")], rich=False),
+                  # w declares its dependency (dependencies=[g2]); the module name g2 is later re-bound to g3 and back
+                  mkfunc("g2", rich=False), mkfunc("g3", rich=False), dict(mkfunc("w", calls=[call("g2")], rich=False), deps=["g2"])],
+        "stmts": {"@keep": "g2_orig = g2", "@bind_t": "g2 = g2_orig"},
         "vars": {"G": 5, "GL": [1, 2], "HV": 1, "GV": 1},
         "classes": {"C1": {"X": 10}, "C2": {"X": 20}},
         "bindings": {"cfg": "C1"},
-        "order": ["f", "g", "h", "k", "r", "p", "q", "abs"],
+        "order": ["f", "g", "h", "k", "r", "p", "q", "abs", "g2", "g3", "@keep", "@bind_t", "w"],
         "late": ["k"],
     }
 
 
-QUERIED = ("f", "g", "r", "p", "q")
-EVENTS = ["redef_f", "redef_g", "redef_h", "redef_r", "redef_q", "redef_h_default", "redef_h_kwdefault", "rebind_G", "rebind_HV", "rebind_GV", "mutate_GL", "def_k_helper", "def_k_var", "def_abs_helper", "toggle_g_kind",
+QUERIED = ("f", "g", "r", "p", "q", "w")
+EVENTS = ["redef_f", "redef_g", "redef_h", "redef_r", "redef_q", "redef_h_default", "redef_h_kwdefault", "rebind_G", "rebind_HV", "rebind_GV", "mutate_GL", "def_k_helper", "def_k_var", "def_abs_helper", "rebind_t", "toggle_g_kind",
           "rebind_cfg", "def_attr_Z", "clone_f", "wrap_f", "query_f", "query_g"]
 
 
@@ -68,6 +71,8 @@ def apply_to_ast(P, ev):
         fm["g"]["kind"] = "plain" if fm["g"]["kind"] == "memento" else "memento"
     elif ev == "rebind_cfg":
         Q["bindings"]["cfg"] = "C2" if Q["bindings"]["cfg"] == "C1" else "C1"
+    elif ev == "rebind_t":  # the declared dependency of w now names the other function (no registration happens)
+        Q["stmts"]["@bind_t"] = "g2 = g3" if Q["stmts"]["@bind_t"] == "g2 = g2_orig" else "g2 = g2_orig"
     elif ev == "def_attr_Z":
         Q["classes"][Q["bindings"]["cfg"]]["Z"] = 5
     else:
@@ -101,6 +106,9 @@ def apply_live(P, Q, ev, mods, root, objs):
         return None
     if ev == "def_attr_Z":
         setattr(getattr(a, Q["bindings"]["cfg"]), "Z", 5)  # a new attribute on the live class object
+        return None
+    if ev == "rebind_t":
+        setattr(a, "g2", getattr(a, Q["stmts"]["@bind_t"].split("= ")[1]))
         return None
     if ev in ("clone_f", "wrap_f", "query_f", "query_g"):
         import twosigma.memento as m
